@@ -190,6 +190,22 @@ fn projects() -> Vec<Project> {
         dup_ids: vec![],
     });
     v.push(Project {
+        name: "one-simple-name-resolved-differently-in-each-file",
+        files: vec![
+            ("f1", "package u1; import a.Foo; interface F1 { void f(in Foo x); Foo g(); }"),
+            ("f2", "package u2; import b.Foo; interface F2 { void f(in Foo x); Foo g(); }"),
+            ("f3", "package u3; interface F3 { void f(in Foo x); Foo g(); }"),
+            ("f4", "package u4; parcelable Foo; interface F4 { void f(in Foo x); Foo g(); }"),
+            ("f5", "package u5; import a.Foo; import b.Foo; interface F5 { void f(in Foo x); b.Foo g(); }"),
+            ("a", "package a; parcelable Foo { }"),
+            ("b", "package b; enum Foo { A }"),
+            ("e1", "package e; enum E1 { A }"),
+            ("o1", "package o; oneway interface O1 { void f(out int[] a) = 1; int g(); }"),
+            ("o2", "package o; interface O2 { void f(out int[] a); void g() = 1; void f(); }"),
+        ],
+        dup_ids: vec![],
+    });
+    v.push(Project {
         name: "forward-declaration-in-another-file",
         files: vec![
             ("a", "package a; parcelable Payload; parcelable Extra; interface A { void f(in Payload p); }"),
@@ -886,7 +902,7 @@ pub fn run(tier: Tier, seed: u64) -> i32 {
     let multi = stats.states.load(std::sync::atomic::Ordering::Relaxed) > 1000;
     finish(
         &stats,
-        "28 projects built to collide (several diagnostics on one line, several unresolved / unused imports and forward declarations, two imports matching one name, a declaration conflicting with several imports, one key registered twice, files without a tree, recovered syntax errors after validation diagnostics) x insertion orders (all permutations up to the stated cap) x plain / replace histories x base keys of new threads x repeated validate() calls; hash seeds are owned through the getrandom shim and the sweep continues until every hash container of <= 4 elements has been observed (hook H3) in all its iteration orders at every site; all outputs of one project must be equal and every file's diagnostics ascending in (line, column); states = validate() calls compared; distinct_nontrivial = distinct iteration-order tuples observed",
+        "29 projects built to collide (several diagnostics on one line, several unresolved / unused imports and forward declarations, two imports matching one name, a declaration conflicting with several imports, one key registered twice, files without a tree, recovered syntax errors after validation diagnostics) x insertion orders (all permutations up to the stated cap) x plain / replace histories x base keys of new threads x repeated validate() calls; hash seeds are owned through the getrandom shim and the sweep continues until every hash container of <= 4 elements has been observed (hook H3) in all its iteration orders at every site; all outputs of one project must be equal and every file's diagnostics ascending in (line, column); states = validate() calls compared; distinct_nontrivial = distinct iteration-order tuples observed",
         &[
             "std's RandomState takes its keys from getrandom(2) once per thread and increments them per instance; the LD_PRELOAD shim makes them a function of the harness-chosen base key (self-tested at start-up)",
             "hook H3 only observes the order of the container the library is about to iterate",
